@@ -272,6 +272,8 @@ def smtname(n):
 # ----------------------------------------------------------------------------------------------- running solvers
 def run_solver(text, solver='z3-new', timeout=60, seed=0):
     """-> (verdict in sat|unsat|unknown|timeout|error, raw output, seconds)"""
+    if solver == 'cvc5' and '(set-logic' not in text:
+        text = '(set-logic ALL)\n' + text
     with tempfile.NamedTemporaryFile('w', suffix='.smt2', delete=False, dir=os.environ.get('VERIF_SMT_TMP', None)) as fh:
         fh.write(text)
         path = fh.name
@@ -293,7 +295,7 @@ def run_solver(text, solver='z3-new', timeout=60, seed=0):
             pass
     dt = time.time() - t
     first = out.strip().split('\n')[0].strip() if out.strip() else ''
-    errs = [l for l in out.split('\n') if '(error' in l and 'model is not available' not in l]
+    errs = [l for l in out.split('\n') if '(error' in l and 'model is not available' not in l and 'Cannot get model' not in l]
     if errs:
         return 'error', out, dt
     if first in ('sat', 'unsat'):
@@ -352,6 +354,8 @@ def race(text, solver, timeout, seeds):
     procs = []
     paths = []
     t0 = time.time()
+    if solver == 'cvc5' and '(set-logic' not in text:
+        text = '(set-logic ALL)\n' + text
     for sd in seeds:
         with tempfile.NamedTemporaryFile('w', suffix='.smt2', delete=False) as fh:
             fh.write(text)
@@ -376,7 +380,7 @@ def race(text, solver, timeout, seeds):
                 out = p.stdout.read()
                 outs[i] = out
                 first = out.strip().split('\n')[0].strip() if out.strip() else ''
-                errs = [l for l in out.split('\n') if '(error' in l and 'model is not available' not in l]
+                errs = [l for l in out.split('\n') if '(error' in l and 'model is not available' not in l and 'Cannot get model' not in l]
                 if first in ('sat', 'unsat') and not errs:
                     result = (first, out, time.time() - t0)
                     break
@@ -399,7 +403,7 @@ def race(text, solver, timeout, seeds):
         return result
     dt = time.time() - t0
     any_out = ' '.join(outs.values())
-    if '(error' in any_out and 'model is not available' not in any_out:
+    if '(error' in any_out and 'model is not available' not in any_out and 'Cannot get model' not in any_out:
         return 'error', any_out, dt
     if 'unknown' in any_out:
         return 'unknown', any_out, dt
